@@ -325,5 +325,10 @@ def guarded(ctx: Ctx, label: str, fn, *a, **k):
     except Exception as e:
         tb = traceback.format_exc(limit=6)
         sys.stderr.write(f"[harness error in {label}]\n{tb}\n")
-        ctx.mark_inconclusive(f"{label}: harness exception {type(e).__name__}: {e}")
+        if os.environ.get("HMON_SANITIZER_PASS") == "1" and isinstance(e, IndexError):
+            # numba bounds checking turned a silent out-of-range access into an exception
+            ctx.violation("SAN:no out-of-bounds array access in compiled kernels (NUMBA_BOUNDSCHECK=1)",
+                          {"where": label, "error": str(e)[:300], "traceback": tb[-1500:]}, None)
+        else:
+            ctx.mark_inconclusive(f"{label}: harness exception {type(e).__name__}: {e}")
     return None
